@@ -258,7 +258,15 @@ fn bfs(args: &Args, rep: &Report, cache: CacheCfg, uni: &Universe, depth: usize,
             rt.block_on(async {
                 // (1) the state itself: replay, fingerprint, op-level contract of the last op
                 let (db, mgr, m, vs) = replay(cache, hist).await;
-                let fp = fingerprint(&db, &mgr).await;
+                // the deduplication key pairs the real state with the MODEL state: a transition after which the
+                // two diverge is never merged with a state in which they agree
+                let model_fp = format!(
+                    "|M{}:{}|{}",
+                    m.active as u8,
+                    m.committed.values().map(show_rec).collect::<Vec<_>>().join(";"),
+                    m.pending.values().map(show_rec).collect::<Vec<_>>().join(";")
+                );
+                let fp = format!("{}{}", fingerprint(&db, &mgr).await, model_fp);
                 let hshow = || hist.iter().map(show_op).collect::<Vec<_>>().join(" ; ");
                 if d > 0 {
                     trans.fetch_add(1, std::sync::atomic::Ordering::Relaxed);
